@@ -5,6 +5,11 @@ import os
 from . import driver as D
 
 
+def _scratch_root():
+    from . import kernel as K_
+    return K_.scratch_root()
+
+
 def engine(name):
     if name == 'mcsim':
         from . import mcsim
@@ -30,7 +35,7 @@ def main(path):
     os.environ['VERIF_JOBS'] = '1'
     if doc['engine'] == 'histsim' and not os.environ.get('DSIM_REFDIR'):
         import tempfile
-        os.environ['DSIM_REFDIR'] = tempfile.mkdtemp(prefix='dsim-ref-', dir='/dev/shm')
+        os.environ['DSIM_REFDIR'] = tempfile.mkdtemp(prefix='dsim-ref-', dir=_scratch_root())
         import atexit
         import shutil
         atexit.register(shutil.rmtree, os.environ['DSIM_REFDIR'], True)
@@ -69,7 +74,7 @@ def digests(engine_name, tier, seeds):
     eng = engine(engine_name)
     refdir = None
     if engine_name == 'histsim' and not os.environ.get('DSIM_REFDIR_KEEP'):
-        refdir = tempfile.mkdtemp(prefix='dsim-ref-', dir='/dev/shm')
+        refdir = tempfile.mkdtemp(prefix='dsim-ref-', dir=_scratch_root())
         os.environ['DSIM_REFDIR'] = refdir
     b = D.Batch(eng, '-', tier).open()
     out = {}
